@@ -6,6 +6,9 @@ Variable isspace : char -> bool.
 Definition all_space (s : str) : bool := match s with [] => false | _ => forallb isspace s end.
 Definition unbalanced (s : str) : bool :=
   negb (Nat.even (count [c_star; c_star] s)) || negb (Nat.even (count [c_us] s)).
+(* the cut at k falls between the two asterisks of a ** delimiter (fix D48) *)
+Definition splits_star (t : str) (k : nat) : bool :=
+  (0 <? k) && (k <? length t) && ch_eqb (nthc t (k - 1)) c_star && ch_eqb (nthc t k) c_star.
 (* header backtrack: scan down from k; at '#': go to line start; at newline: stop *)
 Fixpoint header_back (t : str) (k : nat) (p : nat) : nat :=
   match k with
@@ -31,13 +34,13 @@ Definition trim_ne (t n : str) : nat * nat :=
               then back (fun k => negb (isspace (nthc t (k - 1))) && negb (isspace (nthc t k))) p0
               else p0 in
     let p2 := header_back t p1 p1 in
-    let p3 := back (fun k => unbalanced (firstn k t)) p2 in
+    let p3 := back (fun k => unbalanced (firstn k t) || splits_star t k) p2 in
     let lim := Nat.min (lt - p3) (ln - p3) in
     let s0 := Nat.min lim (common_prefix (rev t) (rev n)) in
     let s1 := if (0 <? s0) && (s0 <? lt)
               then back (fun k => negb (isspace (nthc t (lt - (k + 1)))) && negb (isspace (nthc t (lt - k)))) s0
               else s0 in
-    let s2 := back (fun k => unbalanced (lastn k t)) s1 in
+    let s2 := back (fun k => unbalanced (lastn k t) || splits_star t (lt - k)) s1 in
     let s3 := if (0 <? s2) && all_space (lastn s2 t) then 0 else s2 in
     absorb t n [c_us] (absorb t n [c_star; c_star] (p3, s3)).
 Definition trim (t n : str) : nat * nat :=
